@@ -524,6 +524,11 @@ class EvalMixin:
 
     def getitem(self, obj, idx):
         obj = self.force(obj, 'subscript base')
+        if type(obj).__name__ == 'PyDictC':
+            for k, v in obj.pairs:
+                if self.path.decide(self.eq(idx, k)):
+                    return v
+            self.raise_('KeyError', 'key')
         if isinstance(obj, (STup, PyList)):
             n = self.conc_int(self.force(idx))
             if n is None:
@@ -604,7 +609,10 @@ class EvalMixin:
     def ev_Dict(self, node):
         if not node.keys:
             return PyList([])   # empty dict literal: only usable via declared locals
-        raise Unsupported('dict literal')
+        if any(k is None for k in node.keys):
+            raise Unsupported('dict literal with ** unpacking')
+        from .executor import PyDictC
+        return PyDictC([(self.ev(k), self.ev(v)) for k, v in zip(node.keys, node.values)])
 
     def ev_Starred(self, node):
         raise Unsupported('starred')
